@@ -13,7 +13,7 @@ from typing import List, Optional
 from ..astutil import Defs, loads, none_test
 from ..core import AnalysisError, attr_chain, short, walk_no_nested, walk_stmts
 from ..effects import effects_of
-from ..joins import VARIANTS, JoinFacts, _callee
+from ..joinsx import VARIANTS, JoinModel
 from . import joinrules as jr
 
 
@@ -39,7 +39,7 @@ def run(ctx) -> None:
     facts = {}
     for v in VARIANTS:
         def one(v=v):
-            jf = JoinFacts(ctx.prog, v)
+            jf = JoinModel(ctx.prog, v)
             facts[v] = jf
             jr.key_symmetry(ctx, jf)
             jr.loops(ctx, jf)
